@@ -46,6 +46,11 @@ structure KInv (ks : Keys) (chan : List (Id × Res)) (queued : Id → Prop) (poo
   noUaf : ks.uaf = false
   wokenLe : ∀ id, ks.woken id ≤ (ks.fin id).length
   wakeReady : ∀ w ∈ ks.wakeLog, w.final = true → w.readyAtWake = true
+  /-- a pending slot holds a waker iff `update_waker` was called for it -/
+  wakerReg : ∀ id w, ks.slot id = .pending w → w.isSome = ks.hadWaker id
+  /-- a completed operation's waker was woken exactly once if one was registered, never otherwise -/
+  wokenEq : ∀ id, ks.fin id ≠ [] → ks.woken id = (if ks.hadWaker id then 1 else 0)
+  freshNoWaker : ∀ id, ks.slot id = .free → ks.src id = [] → ks.hadWaker id = false
 
 theorem KInv.init : KInv {} [] (fun _ => False) [] where
   srcLen := by intro id; simp
@@ -57,6 +62,9 @@ theorem KInv.init : KInv {} [] (fun _ => False) [] where
   noUaf := rfl
   wokenLe := by intro id; simp
   wakeReady := by intro w h; simp at h
+  wakerReg := by intro id w h; simp at h
+  wokenEq := by intro id h; simp at h
+  freshNoWaker := by intro id _ _; rfl
 
 section
 variable {ks : Keys} {chan : List (Id × Res)} {queued : Id → Prop} {pool : List Id}
@@ -125,6 +133,7 @@ end
 @[simp] theorem alloc_fin (ks : Keys) (id : Id) : (ks.alloc id).fin = ks.fin := rfl
 @[simp] theorem alloc_dlv (ks : Keys) (id : Id) : (ks.alloc id).dlv = ks.dlv := rfl
 @[simp] theorem alloc_uaf (ks : Keys) (id : Id) : (ks.alloc id).uaf = ks.uaf := rfl
+@[simp] theorem alloc_hadWaker (ks : Keys) (id : Id) : (ks.alloc id).hadWaker = ks.hadWaker := rfl
 @[simp] theorem alloc_woken (ks : Keys) (id : Id) : (ks.alloc id).woken = ks.woken := rfl
 @[simp] theorem alloc_wakeLog (ks : Keys) (id : Id) : (ks.alloc id).wakeLog = ks.wakeLog := rfl
 
@@ -134,6 +143,7 @@ end
 @[simp] theorem produce_fin (ks : Keys) (id : Id) (r : Res) : (ks.produce id r).fin = ks.fin := rfl
 @[simp] theorem produce_dlv (ks : Keys) (id : Id) (r : Res) : (ks.produce id r).dlv = ks.dlv := rfl
 @[simp] theorem produce_uaf (ks : Keys) (id : Id) (r : Res) : (ks.produce id r).uaf = ks.uaf := rfl
+@[simp] theorem produce_hadWaker (ks : Keys) (id : Id) (r : Res) : (ks.produce id r).hadWaker = ks.hadWaker := rfl
 @[simp] theorem produce_woken (ks : Keys) (id : Id) (r : Res) : (ks.produce id r).woken = ks.woken := rfl
 @[simp] theorem produce_wakeLog (ks : Keys) (id : Id) (r : Res) : (ks.produce id r).wakeLog = ks.wakeLog := rfl
 
@@ -173,6 +183,18 @@ theorem notify_frame (ks : Keys) (id : Id) (r : Res) (x : Id) (hx : x ≠ id) :
     cases w with
     | none => simp [Keys.notify, Keys.storeResult, hs, Slot.store, upd, hx]
     | some wk => simp [Keys.notify, Keys.storeResult, Keys.wake, hs, Slot.store, upd, hx]
+
+theorem notify_hadWaker (ks : Keys) (id : Id) (r : Res) : (ks.notify id r).hadWaker = ks.hadWaker := by
+  unfold Keys.notify Keys.storeResult
+  cases h : ((ks.slot id).store r).2 <;> simp [Keys.wake]
+
+theorem setWaker_hadWaker (ks : Keys) (id : Id) (w : WakerId) (x : Id) :
+    (ks.setWaker id w).hadWaker x =
+      (match ks.slot id with
+       | .pending _ => if x = id then true else ks.hadWaker x
+       | _ => ks.hadWaker x) := by
+  unfold Keys.setWaker
+  cases ks.slot id <;> simp [upd]
 
 theorem pop_ready (ks : Keys) (id : Id) (r : Res) (h : ks.slot id = .ready r) :
     ks.pop id = ({ ks with slot := upd ks.slot id .free, dlv := upd ks.dlv id (ks.dlv id ++ [r]) }, some r) := by
@@ -219,6 +241,9 @@ theorem KInv.requeue {queued' : Id → Prop} (h : KInv ks chan queued pool)
   noUaf := h.noUaf
   wokenLe := h.wokenLe
   wakeReady := h.wakeReady
+  wakerReg := h.wakerReg
+  wokenEq := h.wokenEq
+  freshNoWaker := h.freshNoWaker
 
 theorem KInv.alloc (h : KInv ks chan queued pool) {id : Id} (hfree : ks.slot id = .free) (hsrc : ks.src id = []) :
     KInv (ks.alloc id) chan queued pool where
@@ -242,6 +267,22 @@ theorem KInv.alloc (h : KInv ks chan queued pool) {id : Id} (hfree : ks.slot id 
   noUaf := by simpa using h.noUaf
   wokenLe := by simpa using h.wokenLe
   wakeReady := by simpa using h.wakeReady
+  wakerReg := by
+    intro x w hx
+    by_cases hxi : x = id
+    · subst hxi
+      simp only [alloc_slot, if_true, Slot.pending.injEq] at hx
+      subst hx
+      simpa using (h.freshNoWaker x hfree hsrc).symm
+    · simp only [alloc_slot, hxi, if_false] at hx
+      exact h.wakerReg x w hx
+  wokenEq := h.wokenEq
+  freshNoWaker := by
+    intro x hx hs
+    by_cases hxi : x = id
+    · subst hxi; simp at hx
+    · simp only [alloc_slot, hxi, if_false] at hx
+      exact h.freshNoWaker x hx (by simpa using hs)
 
 theorem KInv.poolAdd (h : KInv ks chan queued pool) {id : Id} (hsrc : ks.src id = [])
     (hnq : ¬ queued id) (hnp : id ∉ pool) (hpend : ∃ w, ks.slot id = .pending w) :
@@ -281,6 +322,9 @@ theorem KInv.poolAdd (h : KInv ks chan queued pool) {id : Id} (hsrc : ks.src id 
   noUaf := h.noUaf
   wokenLe := h.wokenLe
   wakeReady := h.wakeReady
+  wakerReg := h.wakerReg
+  wokenEq := h.wokenEq
+  freshNoWaker := h.freshNoWaker
 
 /-- a result for `id` is produced and put into the channel (thread-pool job done, ECANCELED entry) -/
 theorem KInv.produceChan (h : KInv ks chan queued pool) {id : Id} (r : Res) (hsrc : ks.src id = [])
@@ -335,6 +379,13 @@ theorem KInv.produceChan (h : KInv ks chan queued pool) {id : Id} (r : Res) (hsr
   noUaf := by simpa using h.noUaf
   wokenLe := by simpa using h.wokenLe
   wakeReady := by simpa using h.wakeReady
+  wakerReg := h.wakerReg
+  wokenEq := h.wokenEq
+  freshNoWaker := by
+    intro x hx hs
+    by_cases hxi : x = id
+    · subst hxi; simp at hs
+    · exact h.freshNoWaker x (by simpa using hx) (by simpa [hxi] using hs)
 
 end
 
@@ -360,7 +411,10 @@ theorem KInv.notifyStep {ks : Keys} {chan chan' : List (Id × Res)} {queued queu
   obtain ⟨w, hw⟩ := hpend
   obtain ⟨e1, e2, e3, e4, e5, _, e7⟩ := notify_pending ks id r w hw
   have hnp : id ∉ pool := fun hm => by have := h.poolFresh id hm; rw [this] at hsrc; cases hsrc
-  refine ⟨?_, ?_, ?_, h.poolNodup, ?_, ?_, ?_, ?_, ?_⟩
+  have ehw := notify_hadWaker ks id r
+  have hwk0 : ks.woken id = 0 := by
+    have := h.wokenLe id; rw [hfin] at this; simpa using this
+  refine ⟨?_, ?_, ?_, h.poolNodup, ?_, ?_, ?_, ?_, ?_, ?_, ?_, ?_⟩
   · intro x; rw [e3]; exact h.srcLen x
   · intro x hx; rw [e3]; exact h.qFresh x (hq x hx)
   · intro x hx; rw [e3]; exact h.poolFresh x hx
@@ -415,6 +469,43 @@ theorem KInv.notifyStep {ks : Keys} {chan chan' : List (Id × Res)} {queued queu
       rcases List.mem_append.1 hrec with hm | hm
       · exact h.wakeReady rec hm hfinal
       · simp at hm; subst hm; rfl
+  · -- wakerReg
+    intro x w' hx
+    rw [ehw]
+    rw [e1] at hx
+    by_cases hxi : x = id
+    · subst hxi; simp at hx
+    · simp only [upd, hxi, if_false] at hx; exact h.wakerReg x w' hx
+  · -- wokenEq
+    intro x hx
+    rw [ehw]
+    by_cases hxi : x = id
+    · subst hxi
+      have hreg := h.wakerReg x w hw
+      cases w with
+      | none =>
+        simp only at e7
+        rw [e7.1, hwk0]
+        simp only [Option.isSome_none] at hreg
+        simp [← hreg]
+      | some wk =>
+        simp only at e7
+        rw [e7.1]
+        simp only [Option.isSome_some] at hreg
+        simp [← hreg, hwk0]
+    · have hx' : ks.fin x ≠ [] := by rw [e2] at hx; simpa [upd, hxi] using hx
+      have := h.wokenEq x hx'
+      cases w with
+      | none => simp only at e7; rw [e7.1]; exact this
+      | some wk => simp only at e7; rw [e7.1]; simpa [upd, hxi] using this
+  · -- freshNoWaker
+    intro x hx hs
+    rw [ehw]
+    rw [e1] at hx
+    rw [e3] at hs
+    by_cases hxi : x = id
+    · subst hxi; simp at hx
+    · simp only [upd, hxi, if_false] at hx; exact h.freshNoWaker x hx hs
 
 /-- ghost-only step: the OS produces the result of `id` (no channel involved yet) -/
 theorem KInv.produced_src {ks : Keys} (id : Id) (r : Res) (hsrc : ks.src id = []) :
@@ -430,7 +521,7 @@ theorem KInv.complete {ks : Keys} {chan : List (Id × Res)} {queued queued' : Id
   have hf := h.fin_of_src_nil hsrc
   -- intermediate invariant: result produced, sitting in a one-element virtual channel in front
   have hmid : KInv (ks.produce id r) ((id, r) :: chan) queued' pool := by
-    refine ⟨?_, ?_, ?_, h.poolNodup, ?_, ?_, ?_, ?_, ?_⟩
+    refine ⟨?_, ?_, ?_, h.poolNodup, ?_, ?_, ?_, ?_, ?_, h.wakerReg, h.wokenEq, ?_⟩
     · intro x
       by_cases hx : x = id
       · subst hx; simp [hsrc]
@@ -467,6 +558,10 @@ theorem KInv.complete {ks : Keys} {chan : List (Id × Res)} {queued queued' : Id
     · simpa using h.noUaf
     · simpa using h.wokenLe
     · simpa using h.wakeReady
+    · intro x hx hs
+      by_cases hxi : x = id
+      · subst hxi; simp at hs
+      · exact h.freshNoWaker x (by simpa using hx) (by simpa [hxi] using hs)
   refine KInv.notifyStep hmid (by simp [hsrc]) (by simpa using hf.1) ?_ (fun x hx => hx) hnq
   intro x
   rw [chanRes_cons]
@@ -511,30 +606,91 @@ theorem KInv.pop {ks : Keys} {chan : List (Id × Res)} {queued : Id → Prop} {p
     have hr := h.slotRel id
     unfold SlotRel at hr
     rw [hs] at hr
-    refine ⟨h.srcLen, h.qFresh, h.poolFresh, h.poolNodup, h.link, ?_, h.noUaf, h.wokenLe, h.wakeReady⟩
-    intro x
-    have hrx := h.slotRel x
-    unfold SlotRel at hrx ⊢
-    by_cases hx : x = id
-    · subst hx
-      simp [hr.1, hr.2]
-    · simpa [upd, hx] using hrx
+    have hsrcne : ks.src id ≠ [] := by
+      have hl := h.link id
+      rw [hr.1] at hl
+      intro e; rw [e] at hl; simp at hl
+    refine ⟨h.srcLen, h.qFresh, h.poolFresh, h.poolNodup, h.link, ?_, h.noUaf, h.wokenLe, h.wakeReady, ?_,
+      h.wokenEq, ?_⟩
+    · intro x
+      have hrx := h.slotRel x
+      unfold SlotRel at hrx ⊢
+      by_cases hx : x = id
+      · subst hx
+        simp [hr.1, hr.2]
+      · simpa [upd, hx] using hrx
+    · intro x w hx
+      by_cases hxi : x = id
+      · subst hxi; simp [upd] at hx
+      · simp only [upd, hxi, if_false] at hx; exact h.wakerReg x w hx
+    · intro x hx hsx
+      by_cases hxi : x = id
+      · subst hxi; exact (hsrcne hsx).elim
+      · simp only [upd, hxi, if_false] at hx; exact h.freshNoWaker x hx hsx
 
 theorem KInv.setWaker {ks : Keys} {chan : List (Id × Res)} {queued : Id → Prop} {pool : List Id}
     (h : KInv ks chan queued pool) (id : Id) (w : WakerId) : KInv (ks.setWaker id w) chan queued pool := by
-  refine ⟨h.srcLen, h.qFresh, h.poolFresh, h.poolNodup, h.link, ?_, h.noUaf, h.wokenLe, h.wakeReady⟩
-  intro x
-  have hrx := h.slotRel x
-  unfold SlotRel at hrx ⊢
-  simp only [setWaker_slot, setWaker_fin, setWaker_dlv, setWaker_src]
-  by_cases hx : x = id
-  · subst hx
-    simp only [if_true]
-    cases hs : ks.slot x with
-    | free => rw [hs] at hrx; simpa [Slot.setWaker] using hrx
-    | pending w' => rw [hs] at hrx; simpa [Slot.setWaker] using hrx
-    | ready r => rw [hs] at hrx; simpa [Slot.setWaker] using hrx
-  · simpa [hx] using hrx
+  refine ⟨h.srcLen, h.qFresh, h.poolFresh, h.poolNodup, h.link, ?_, h.noUaf, h.wokenLe, h.wakeReady, ?_, ?_, ?_⟩
+  · intro x
+    have hrx := h.slotRel x
+    unfold SlotRel at hrx ⊢
+    simp only [setWaker_slot, setWaker_fin, setWaker_dlv, setWaker_src]
+    by_cases hx : x = id
+    · subst hx
+      simp only [if_true]
+      cases hs : ks.slot x with
+      | free => rw [hs] at hrx; simpa [Slot.setWaker] using hrx
+      | pending w' => rw [hs] at hrx; simpa [Slot.setWaker] using hrx
+      | ready r => rw [hs] at hrx; simpa [Slot.setWaker] using hrx
+    · simpa [hx] using hrx
+  · intro x w' hx
+    rw [setWaker_slot] at hx
+    rw [setWaker_hadWaker]
+    by_cases hxi : x = id
+    · subst hxi
+      simp only [if_true] at hx
+      cases hs : ks.slot x with
+      | free => rw [hs] at hx; simp [Slot.setWaker] at hx
+      | ready r => rw [hs] at hx; simp [Slot.setWaker] at hx
+      | pending w0 =>
+        rw [hs] at hx
+        simp only [Slot.setWaker, Slot.pending.injEq] at hx
+        subst hx
+        simp
+    · simp only [hxi, if_false] at hx
+      have := h.wakerReg x w' hx
+      cases ks.slot id <;> simp [hxi, this]
+  · intro x hx
+    simp only [setWaker_fin] at hx
+    rw [setWaker_hadWaker]
+    have hwe := h.wokenEq x hx
+    simp only [setWaker_woken]
+    cases hs : ks.slot id with
+    | free => simpa using hwe
+    | ready r => simpa using hwe
+    | pending w0 =>
+      simp only
+      by_cases hxi : x = id
+      · subst hxi
+        have hr := h.slotRel x
+        unfold SlotRel at hr
+        rw [hs] at hr
+        exact (hx hr.1).elim
+      · simpa [hxi] using hwe
+  · intro x hx hsx
+    rw [setWaker_slot] at hx
+    rw [setWaker_hadWaker]
+    simp only [setWaker_src] at hsx
+    by_cases hxi : x = id
+    · subst hxi
+      simp only [if_true] at hx
+      cases hs : ks.slot x with
+      | free => simpa using h.freshNoWaker x hs hsx
+      | ready r => rw [hs] at hx; simp [Slot.setWaker] at hx
+      | pending w0 => rw [hs] at hx; simp [Slot.setWaker] at hx
+    · simp only [hxi, if_false] at hx
+      have := h.freshNoWaker x hx hsx
+      cases ks.slot id <;> simp [hxi, this]
 
 /-- `PushEntry::Ready` at push time: the freshly allocated key gets its result and is consumed at once -/
 theorem KInv.immediate {ks : Keys} {chan : List (Id × Res)} {queued : Id → Prop} {pool : List Id}
@@ -893,7 +1049,8 @@ theorem append_comm_of_length_le_one {α : Type} (a b : List α) (h : (a ++ b).l
 /-- reordering the not-yet-notified results (they belong to pairwise different operations) -/
 theorem KInv.chanSwap {ks : Keys} {a b c : List (Id × Res)} {queued : Id → Prop} {pool : List Id}
     (h : KInv ks (a ++ b ++ c) queued pool) : KInv ks (a ++ c ++ b) queued pool := by
-  refine ⟨h.srcLen, h.qFresh, h.poolFresh, h.poolNodup, ?_, h.slotRel, h.noUaf, h.wokenLe, h.wakeReady⟩
+  refine ⟨h.srcLen, h.qFresh, h.poolFresh, h.poolNodup, ?_, h.slotRel, h.noUaf, h.wokenLe, h.wakeReady,
+    h.wakerReg, h.wokenEq, h.freshNoWaker⟩
   intro id
   have hl := h.link id
   have hlen := h.srcLen id
@@ -1148,23 +1305,26 @@ theorem pushMulti_fields (ks : Keys) (id : Id) (r : Res) :
     (ks.pushMulti id r).slot = ks.slot ∧ (ks.pushMulti id r).src = ks.src ∧ (ks.pushMulti id r).fin = ks.fin ∧
     (ks.pushMulti id r).dlv = ks.dlv ∧ (ks.pushMulti id r).woken = ks.woken ∧
     (ks.pushMulti id r).uaf = (ks.uaf || (ks.slot id == .free)) ∧
-    (∀ w ∈ (ks.pushMulti id r).wakeLog, w.final = true → w ∈ ks.wakeLog) := by
+    (∀ w ∈ (ks.pushMulti id r).wakeLog, w.final = true → w ∈ ks.wakeLog) ∧
+    (ks.pushMulti id r).hadWaker = ks.hadWaker := by
   unfold Keys.pushMulti
   split
-  · refine ⟨rfl, rfl, rfl, rfl, rfl, rfl, ?_⟩
+  · refine ⟨rfl, rfl, rfl, rfl, rfl, rfl, ?_, rfl⟩
     intro w hw hf
     simp only [Keys.wake, List.mem_append, List.mem_singleton] at hw
     rcases hw with hw | rfl
     · exact hw
     · simp at hf
-  · exact ⟨rfl, rfl, rfl, rfl, rfl, rfl, fun w hw _ => hw⟩
+  · exact ⟨rfl, rfl, rfl, rfl, rfl, rfl, fun w hw _ => hw, rfl⟩
 
 theorem KInv.pushMulti {ks : Keys} {chan : List (Id × Res)} {queued : Id → Prop} {pool : List Id}
     (h : KInv ks chan queued pool) (id : Id) (r : Res) (hlive : ks.slot id ≠ .free) :
     KInv (ks.pushMulti id r) chan queued pool := by
-  obtain ⟨e1, e2, e3, e4, e5, e6, e7⟩ := pushMulti_fields ks id r
+  obtain ⟨e1, e2, e3, e4, e5, e6, e7, e8⟩ := pushMulti_fields ks id r
   refine ⟨by rw [e2]; exact h.srcLen, by rw [e2]; exact h.qFresh, by rw [e2]; exact h.poolFresh, h.poolNodup,
-    by rw [e2, e3]; exact h.link, ?_, ?_, by rw [e3, e5]; exact h.wokenLe, ?_⟩
+    by rw [e2, e3]; exact h.link, ?_, ?_, by rw [e3, e5]; exact h.wokenLe, ?_,
+    by rw [e1, e8]; exact h.wakerReg, by rw [e3, e5, e8]; exact h.wokenEq,
+    by rw [e1, e2, e8]; exact h.freshNoWaker⟩
   · intro x
     have := h.slotRel x
     unfold SlotRel at this ⊢
